@@ -300,12 +300,19 @@ func crashSite(log []byte) string {
 	if i < 0 {
 		return "unknown"
 	}
-	m := frameRe.FindSubmatch(log[i:])
+	m := frameLineRe.FindSubmatch(log[i:])
 	if m == nil {
 		return "no-terway-frame"
 	}
-	return trimPkg(string(m[1]))
+	// the whole function name: "pkg/eni.(*Local).commitWithOwner", cut at the argument list
+	fn := string(m[1])
+	if k := strings.LastIndex(fn, "("); k > 0 {
+		fn = fn[:k]
+	}
+	return trimPkg(fn)
 }
+
+var frameLineRe = regexp.MustCompile(`(?m)^(github\.com/AliyunContainerService/terway/[^\n]+)$`)
 
 func trimPkg(s string) string {
 	return strings.TrimPrefix(s, "github.com/AliyunContainerService/terway/")
